@@ -25,8 +25,11 @@ echo "$name: demo_clean=$clean_rc build=$build_rc tests=$test_rc demo_mutant=$mu
 if [ $clean_rc = 0 ] && [ $build_rc = 0 ] && [ $test_rc = 0 ] && [ $mut_rc != 0 ]; then
   mkdir -p /verif/seeded/$name
   cp $out/patch.diff /verif/seeded/$name/
-  for f in $out/demo.sh $out/*_test.go $out/*.py $out/*.cc $out/*.h $out/meta.json; do [ -f $f ] && cp $f /verif/seeded/$name/; done
-  [ -d $out/model ] && cp -r $out/model /verif/seeded/$name/
+  for f in $out/*; do
+    b=$(basename $f)
+    case $b in patch.diff|yardl|*.o|*.log) continue;; esac
+    if [ -d $f ]; then cp -r $f /verif/seeded/$name/; elif [ $(stat -c %s $f) -lt 2000000 ]; then cp $f /verif/seeded/$name/; fi
+  done
   python3 - <<PY
 import json
 p='/verif/seeded/$name/meta.json'
